@@ -214,7 +214,9 @@ async fn fake_tracker(case: E2eCase, t: Torrent, sh: Arc<Shared>) {
 }
 
 fn peer_id(i: usize) -> [u8; 20] {
+    // peer ids are 20 arbitrary bytes (most clients fill the tail with random ones): not text, not valid UTF-8
     let mut id = *b"-FK0001-peerpeerpeer";
+    id[8..16].copy_from_slice(&[0xff, 0x80, 0xc3, 0x28, 0x00, 0xe2, 0x82, 0xfe]);
     id[19] = b'0' + i as u8;
     id
 }
